@@ -5,6 +5,10 @@ mod nanos;
 mod fmt;
 mod conv;
 mod table;
+mod rulealpha;
+mod rule;
+mod rulecons;
+mod find;
 
 use common::*;
 
@@ -28,6 +32,9 @@ fn main() {
             "nanos" => nanos::replay(&v["case"], &args),
             "fmt" => fmt::replay(&v["case"], &args),
             "table" => table::replay(&v["case"], &args),
+            "rule" => rule::replay(&v["case"], &args),
+            "rulecons" => rulecons::replay(&v["case"], &args),
+            "find" => find::replay(&v["case"], &args),
             _ => {
                 eprintln!("no replay for engine {}", args.engine);
                 2
@@ -40,6 +47,9 @@ fn main() {
             "nanos" => nanos::run(&args),
             "fmt" => fmt::run(&args),
             "table" => table::run(&args),
+            "rule" => rule::run(&args),
+            "rulecons" => rulecons::run(&args),
+            "find" => find::run(&args),
             e => {
                 eprintln!("unknown engine {e}");
                 2
